@@ -121,6 +121,29 @@ def tiny_epsilon(ctx, rng, count):
     ctx.put("tiny_epsilon_cases", count)
 
 
+def known_inputs(ctx):
+    """Regression input of D12: float32 rank-19 Gram matrix with dead coordinates on which torch.linalg.eigh returns NaN silently."""
+    from matrix_functions import matrix_inverse_root
+    from pathlib import Path
+    A = torch.load(Path(__file__).resolve().parent.parent / "data" / "eigh_silent_nan_f32_64.pt", weights_only=True)
+    for path in ("eigen", "eigen_stab"):
+        for root, eps in ((Fraction(2), 1e-3), (Fraction(4), 1e-6), (Fraction(8, 3), 1e-2)):
+            ctx.add("evaluations")
+            X = matrix_inverse_root(A, root, mp.cfg_of(path), epsilon=eps).to(F64)
+            bad = None
+            if not bool(torch.isfinite(X).all()):
+                bad = ("finite", "all entries finite", "NaN/Inf")
+            else:
+                ev = torch.linalg.eigvalsh((X + X.T) / 2)
+                ub = eps ** (-1.0 / float(root))
+                if float(ev.min()) <= 0 or float(ev.max()) > ub * 1.001:
+                    bad = ("bounds", f"0 < eigenvalues <= eps^(-1/r) = {ub:.4e}", f"[{float(ev.min()):.3e}, {float(ev.max()):.4e}]")
+            if bad:
+                ctx.violation(f"eigen inverse root ({path}, root {root}, eps {eps}) on the float32 rank-19 matrix with dead coordinates "
+                              f"(harness/data/eigh_silent_nan_f32_64.pt): {bad[0]}: expected {bad[1]}, observed {bad[2]}",
+                              {"kind": "degenerate_inverse_root", "clause": bad[0]}, {"known_input": "eigh_silent_nan_f32_64"})
+
+
 def rejection(ctx):
     from matrix_functions import matrix_inverse_root
     shapes = [(2, 3), (3, 2), (1, 2), (2, 1), (2,), (3,), (2, 2, 2), (1, 2, 2), (2, 2, 1), (1, 1, 2), (4, 1, 1, 1), (2, 3, 4), (4, 1), (1, 3, 3)]
@@ -145,6 +168,7 @@ def run(ctx):
     mp.run_mc(ctx, quick)
     mp.check_dispatch(ctx)
     rejection(ctx)
+    known_inputs(ctx)
     sizes = [1, 2, 3, 5, 8, 16, 32] if quick else [1, 2, 3, 4, 5, 8, 16, 32, 48, 64]
     cases = degenerate_cases(rng, 300 if quick else 4000, sizes)
     exp = mp.oracle_eval(cases, "C11-deg")
@@ -169,7 +193,9 @@ def run(ctx):
 
 def replay(ctx, data):
     r = data["replay"]
-    if "tiny" in r:
+    if "known_input" in r:
+        known_inputs(ctx)
+    elif "tiny" in r:
         tiny_epsilon(ctx, random.Random(ctx.seed * 7919 + 11), 400)
     elif "case" in r:
         e = mp.oracle_eval([r["case"]], "C11-rep")[0]
